@@ -77,6 +77,51 @@ var reqOfResp = map[uint16]string{tsgu.TypeHandshakeResp: "HS", tsgu.TypeTunnelR
 var nextClass = map[string]string{"INIT": "HS", "HS": "TC", "TC": "TA", "TA": "CC"}
 var nextPhase = map[string]string{"INIT": "HS", "HS": "TC", "TC": "TA", "TA": "CC"}
 
+// decide is the reference decision for packet s in the current phase: is it
+// the next step, must it be accepted, which address must be dialled, and if it
+// is refused, why (capability | cookie | host-policy | unreachable | out-of-order).
+func (m *c01Monitor) decide(s sym) (inOrder, accept bool, expectDial, reason string) {
+	inOrder = nextClass[m.Phase] == s.Class
+	if !inOrder {
+		return inOrder, false, "", "out-of-order"
+	}
+	switch s.Class {
+	case "HS":
+		var srv uint16
+		if m.SC {
+			srv |= tsgu.ExtAuthSC
+		}
+		if m.Token {
+			srv |= tsgu.ExtAuthPAA
+		}
+		accept = (srv == 0 && s.Ext == 0) || srv&s.Ext != 0
+		reason = "capability"
+	case "TC":
+		accept = !m.Token || s.Ck == "ok" || s.Ck == "other"
+		if accept && m.Token {
+			m.TokHost = map[string]string{"ok": hostA + ":3389", "other": hostB + ":3389"}[s.Ck]
+		}
+		reason = "cookie"
+	case "TA":
+		accept = true
+	case "CC":
+		allowed := s.Host != "" && s.Host != hostZ+":3389"
+		if m.Token {
+			allowed = allowed && s.Host == m.TokHost
+		}
+		reason = "host-policy"
+		if allowed {
+			expectDial = s.Host
+			accept = s.Host != hostU+":3389"
+			reason = "unreachable"
+		}
+	}
+	if accept {
+		reason = ""
+	}
+	return
+}
+
 // step checks one observation; returns violation kinds.
 func (m *c01Monitor) step(s sym, o StepObs) (viol []string) {
 	bad := func(f string, a ...any) { viol = append(viol, fmt.Sprintf(f, a...)) }
@@ -118,41 +163,7 @@ func (m *c01Monitor) step(s sym, o StepObs) (viol []string) {
 	if m.Dials > 1 {
 		bad("second-dial@%s/%s", phase, s.Class)
 	}
-	inOrder := nextClass[phase] == s.Class
-	// decide what the reference demands
-	accept := false
-	expectDial := ""
-	dialOK := false
-	if inOrder {
-		switch s.Class {
-		case "HS":
-			var srv uint16
-			if m.SC {
-				srv |= tsgu.ExtAuthSC
-			}
-			if m.Token {
-				srv |= tsgu.ExtAuthPAA
-			}
-			accept = (srv == 0 && s.Ext == 0) || srv&s.Ext != 0
-		case "TC":
-			accept = !m.Token || s.Ck == "ok" || s.Ck == "other"
-			if accept && m.Token {
-				m.TokHost = map[string]string{"ok": hostA + ":3389", "other": hostB + ":3389"}[s.Ck]
-			}
-		case "TA":
-			accept = true
-		case "CC":
-			allowed := s.Host != "" && s.Host != hostZ+":3389"
-			if m.Token {
-				allowed = allowed && s.Host == m.TokHost
-			}
-			if allowed {
-				expectDial = s.Host
-				dialOK = s.Host != hostU+":3389"
-				accept = dialOK
-			}
-		}
-	}
+	inOrder, accept, expectDial, _ := m.decide(s)
 	// dials
 	if expectDial == "" && len(o.Dials) > 0 {
 		bad("dial-without-authorization@%s/%s", phase, s.Name)
